@@ -40,6 +40,7 @@ Definition generated_lists_ok_b : bool :=
   && existsb (fun x => Nat.eqb (fstep_tag (fst x)) 4) finally_steps
   && existsb (fun x => Nat.eqb (fstep_tag (fst x)) 5) finally_steps
   && capture_started_recorded && path_saved_before_with
+  && read_in_try && (match unguarded_calls with [] => true | _ => false end)
   && outer_with_covers_parse && exec_in_try && path_insert_in_try && catches_sysexit
   && meta_append_before_with
   && kmem k_chdir outer_keys && kmem k_abspath outer_keys && kmem k_exit inner_keys
@@ -53,6 +54,12 @@ Definition listed_are_patched_b : bool :=
   forallb (fun k => kmem k (outer_keys ++ begin_keys ++ inner_keys)) listed_required.
 Lemma listed_are_patched : listed_are_patched_b = true.
 Proof. vm_compute. reflexivity. Qed.
+
+(* obligation: the read of the script sits inside the try, so it never aborts before the finally exists *)
+Lemma read_aborts_false : forall p, read_aborts p = false.
+Proof. reflexivity. Qed.
+Lemma eff_ops_cases : forall p, eff_ops p = [] \/ eff_ops p = fst p.
+Proof. intros p; unfold eff_ops. destruct (is_unreadable (snd p)); auto. Qed.
 
 Lemma all_keys_nodup : NoDup all_keys.
 Proof. apply nodupb_sound. vm_compute. reflexivity. Qed.
